@@ -101,6 +101,8 @@ void CommonLoop::runThisAfterLoop()
     if (sp_run_read_event_ != nullptr) {
         CHECK_DELETE_RESET_OBJ(sp_run_read_event_);
         CHECK_CLOSE_RESET_FD(run_event_fd_);
+        //! the wake-up request, if any, died with the eventfd; the next runLoop() creates a new one
+        has_commit_run_req_ = false;
     }
 }
 
